@@ -1319,14 +1319,21 @@ def local_convergence(seed, n, scale=1.0):
     rng = random.Random(seed)
     fails, evals = [], 0
     for i in range(n):
-        kind = rng.choice(['SE2', 'SE3'])
+        # the first two cases of every run: a noise-free SE(3) survey WITH landmark observations that arrives as a .g2o file in the standard layout
+        # (independent writer) -- so that this entry point does not depend on the draw
+        forced = i < 2
+        kind = 'SE3' if forced else rng.choice(['SE2', 'SE3'])
         nv = rng.randint(3, 40 if rng.random() < 0.15 else 12)
-        noise_free = rng.random() < 0.3
+        noise_free = forced or rng.random() < 0.3
         noise = 1e-10 if noise_free else rng.uniform(0, C05_BOUNDS['noise_t'] * scale)
         pert = rng.uniform(0, C05_BOUNDS['pert_t'] * scale)
         g, truth = oe.build_graph(rng, kind, nv=nv, landmarks=True, noise=max(noise, 1e-12), pert=pert, info_cross=True)
-        tol = 10 ** rng.uniform(-10, -3)
-        reuse = rng.random() < 0.25
+        for _try in range(20):
+            if not forced or any(isinstance(e, EdgeLandmark) for e in g._edges):
+                break
+            g, truth = oe.build_graph(rng, kind, nv=nv, landmarks=True, noise=max(noise, 1e-12), pert=pert, info_cross=True)
+        tol = 10 ** rng.uniform(-10, -7) if forced else 10 ** rng.uniform(-10, -3)
+        reuse = (not forced) and rng.random() < 0.25
         if reuse:
             # ordinary usage: the same edge objects first served a graph over the ground-truth vertices (e.g. to look
             # at its chi2), then the graph that is optimized is built from them and the perturbed vertices
@@ -1342,7 +1349,7 @@ def local_convergence(seed, n, scale=1.0):
             Graph(fresh, tv).calc_chi2()
             g = Graph(fresh, list(g._vertices))
         prehistory(rng, g, 0.2)
-        if kind == 'SE3' and rng.random() < 0.25 and all(isinstance(e, (EdgeOdometry, EdgeLandmark)) for e in g._edges):
+        if kind == 'SE3' and (forced or rng.random() < 0.25) and all(isinstance(e, (EdgeOdometry, EdgeLandmark)) for e in g._edges):
             # the same problem arriving as a .g2o file in the standard layout (written here, not by the library), loaded by Graph.from_g2o
             import tempfile
             import os
@@ -1366,14 +1373,14 @@ def local_convergence(seed, n, scale=1.0):
                         [w for w in g._vertices if w.id == e.vertex_ids[1]][0].pose = e.estimate
                         break
         anchored = beacon = False
-        if rng.random() < 0.25:
+        if (not forced) and rng.random() < 0.25:
             # anchors chosen through a mask: the flag is a numpy.bool_ (or the integer 1)
             k_a = rng.randrange(1, nv)
             g._vertices[k_a].fixed = rng.choice([np.bool_(True), 1])       # anchored where it currently is
             noise_free = False
             anchored = True
         lms_ = [v for v in g._vertices if isinstance(v.pose, (PoseR2, PoseR3))]
-        if kind in ('SE2', 'SE3') and lms_ and not anchored and rng.random() < 0.3:
+        if kind in ('SE2', 'SE3') and lms_ and not anchored and (not forced) and rng.random() < 0.3:
             # a surveyed beacon: one landmark is held where it currently is (a fixed vertex narrower than a pose, anywhere in the list).  ONE vertex
             # held at a perturbed place keeps the problem inside the calibrated neighbourhood; several of them (this, the anchor above, the staged
             # anchor below) add up to an inconsistency on which un-damped Gauss-Newton may cycle -- outside the claim
@@ -1385,7 +1392,7 @@ def local_convergence(seed, n, scale=1.0):
             for e in g._edges:
                 e.information = np.asarray(e.information, dtype=np.float64) * 2.0 ** info_pow
         c0 = _independent_view(g).calc_chi2()
-        staged = (not reuse) and (not beacon) and rng.random() < 0.2
+        staged = (not reuse) and (not beacon) and (not forced) and rng.random() < 0.2
         try:
             if staged:
                 # two-stage use of ONE Graph object: one iteration, then another pose is anchored where it is, then the run to convergence
@@ -1413,6 +1420,10 @@ def local_convergence(seed, n, scale=1.0):
         if not dec <= 10.0 * tol * (c1 + 1e-9 * isc) + 1e-12 * isc:
             fails.append({'law': 'Newton decrement %g of the independent model exceeds 10*tol*chi2 = %g' % (dec, 10 * tol * c1), 'seed': seed, 'case': i,
                           'kind': kind, 'nv': nv, 'tol': tol, 'chi2': c1, 'edge': 'graph'})
+            continue
+        if noise_free and tol <= 1e-6 and not c1 <= max(1e-6 * c0, 1e-13 * isc):
+            fails.append({'law': 'noise-free problem (every measurement consistent with one ground truth): final chi2 %r, initial %r -- the optimizer did not reach '
+                                 'the consistent configuration' % (c1, c0), 'seed': seed, 'case': i, 'kind': kind, 'edge': 'graph'})
             continue
         if noise_free and tol <= 1e-6:
             # relative poses reproduce the ground truth
